@@ -49,6 +49,9 @@ pub enum BatchItem {
 #[derive(Clone, Debug, Serialize, Deserialize)]
 pub enum Op {
     Add(AddSpec),
+    /// `n` documents each carrying ~60 000 unique tokens in the (non-stored) `bulk` field: several of them make an
+    /// indexing worker reach its memory budget, i.e. the *real* "segment cut inside a transaction" path
+    BigRun(AddSpec, u8),
     /// delete_term on the uid of a previously added document (index into all uids so far)
     DelUid(u16),
     DelGroup(u8),
@@ -93,6 +96,8 @@ pub fn op_strategy(with_delete_all: bool) -> BoxedStrategy<Op> {
         4 => prop::collection::vec(batch_item, 0..6).prop_map(Op::Batch),
         1 => if with_delete_all { Just(Op::DeleteAll) } else { Just(Op::Gc) },
         9 => Just(Op::Commit),
+        // rare and expensive (see Op::BigRun)
+        if with_delete_all { 1 } else { 1 } => (add_strategy(), 6u8..11).prop_map(|(a, n)| Op::BigRun(a, n)),
         2 => Just(Op::PrepareCommit),
         2 => Just(Op::PrepareAbort),
         2 => Just(Op::Rollback),
@@ -144,6 +149,7 @@ pub struct Fields {
     pub grp: Field,
     pub body: Field,
     pub num: Field,
+    pub bulk: Field,
 }
 pub fn hist_schema() -> (Schema, Fields) {
     let mut sb = Schema::builder();
@@ -151,7 +157,8 @@ pub fn hist_schema() -> (Schema, Fields) {
     let grp = sb.add_text_field("grp", STRING | STORED);
     let body = sb.add_text_field("body", TEXT | STORED);
     let num = sb.add_i64_field("num", FAST | INDEXED | STORED);
-    (sb.build(), Fields { uid, grp, body, num })
+    let bulk = sb.add_text_field("bulk", TextOptions::default().set_indexing_options(TextFieldIndexing::default().set_tokenizer("whitespace").set_index_option(IndexRecordOption::Basic)));
+    (sb.build(), Fields { uid, grp, body, num, bulk })
 }
 
 pub enum DirHandle {
@@ -193,6 +200,8 @@ pub struct Env {
     pub verify_each_commit: bool,
     /// check the quiescence (no-orphan) predicate when possible
     pub check_quiescence: bool,
+    /// execute the first Op::BigRun with really big documents (memory-budget segment cut); off = plain documents
+    pub allow_big: bool,
     /// never call delete_all_documents while operations are pending (C10 uses the histories for files only)
     pub skip_dirty_delete_all: bool,
     /// a writer was dropped (not waited for) under a merging policy and the index re-opened through a new handle
@@ -217,6 +226,7 @@ pub struct HistStats {
     pub delete_all: u32,
     pub delete_all_excluded: u32,
     pub gc: u32,
+    pub big_runs: u32,
 }
 
 impl Env {
@@ -269,6 +279,7 @@ impl Env {
             stats: HistStats::default(),
             verify_each_commit: true,
             check_quiescence: true,
+            allow_big: false,
             skip_dirty_delete_all: false,
             zombie_merge_possible: false,
             delete_all_while_dirty: false,
@@ -340,6 +351,30 @@ impl Env {
                 self.pending.insert(uid, rec);
                 self.all_uids.push(uid);
                 self.next_uid += 1;
+                self.dirty = true;
+            }
+            Op::BigRun(a, n) => {
+                // only the first big run of a history is executed in full (cost); later ones add plain documents
+                let big = self.allow_big && self.stats.big_runs == 0;
+                if big {
+                    self.stats.big_runs += 1;
+                }
+                for k in 0..*n {
+                    let uid = self.next_uid;
+                    let (mut d, rec) = self.doc(uid, a);
+                    if big {
+                        let mut text = String::with_capacity(60_000 * 9);
+                        for t in 0..60_000u32 {
+                            text.push_str(&format!("b{uid}x{k}x{t} "));
+                        }
+                        d.add_text(self.f.bulk, text);
+                    }
+                    let o = self.writer.as_ref().unwrap().add_document(d).or_fail("add_failed")?;
+                    self.note_opstamp(o, "add_document")?;
+                    self.pending.insert(uid, rec);
+                    self.all_uids.push(uid);
+                    self.next_uid += 1;
+                }
                 self.dirty = true;
             }
             Op::DelUid(raw) => {
